@@ -12,10 +12,10 @@ def mech_cfg(threads, locked=True, publish=True):
             f"PublishFirst = {'TRUE' if publish else 'FALSE'}\nCONSTRAINT Collect\nPOSTCONDITION Report\nVIEW View\nCHECK_DEADLOCK FALSE\n")
 
 
-def explore(work, name, threads, explore, nslices, par=14):
+def explore(work, name, threads, explore, nslices, par=14, watch="tooling"):
     """run the schedule exploration in nslices processes (each regenerates the same plan list and takes a slice)"""
     probe = os.path.join(work, f"{name}_probe.json")
-    json.dump({"threads": threads, "explore": explore, "slice": [0, 0]}, open(probe, "w"))
+    json.dump({"threads": threads, "explore": explore, "slice": [0, 0], "watch": watch}, open(probe, "w"))
     pout = os.path.join(work, f"{name}_probe_out.json")
     info = json.loads(core.run_driver("harness.drivers.thread_driver", [probe, pout]).strip().splitlines()[-1])
     total = info["plans"]
@@ -24,13 +24,16 @@ def explore(work, name, threads, explore, nslices, par=14):
     def one(i):
         jin = os.path.join(work, f"{name}_{i}.json")
         jout = os.path.join(work, f"{name}_{i}_out.json")
-        json.dump({"threads": threads, "explore": explore, "slice": [i * step, min(total, (i + 1) * step)], "first_id": i * 1000000},
+        json.dump({"threads": threads, "explore": explore, "slice": [i * step, min(total, (i + 1) * step)], "first_id": i * 1000000, "watch": watch},
                   open(jin, "w"))
         core.run_driver("harness.drivers.thread_driver", [jin, jout], timeout=3000)
         return json.load(open(jout))
     with ThreadPoolExecutor(max_workers=par) as ex:
         res = list(ex.map(one, range((total + step - 1) // step)))
-    return [r for rs in res for r in rs], info
+    allruns = [r for rs in res for r in rs]
+    for r in allruns:
+        r["watch"] = watch
+    return allruns, info
 
 
 def run(out, tier, seed):
@@ -59,10 +62,17 @@ def run(out, tier, seed):
         runs += rs
         rs, info3 = explore(work, "abc1", ["A", "B", "C"], {"bound": 1, "stride": 4}, 6)
         runs += rs
+        # two threads with the same (interned) selector, preempted anywhere in the tooling AND in the call path
+        rs, info_c = explore(work, "de1", ["D", "E"], {"bound": 1, "stride": 2}, 8, watch="call")
+        runs += rs
     else:
         rs, info = explore(work, "ab2", ["A", "B"], {"bound": 2, "stride": 1, "stride2": 1}, 28)
         runs += rs
         rs, info3 = explore(work, "abc2", ["A", "B", "C"], {"bound": 2, "stride": 2, "stride2": 6}, 28)
+        runs += rs
+        rs, info_c = explore(work, "de2", ["D", "E"], {"bound": 2, "stride": 1, "stride2": 7}, 28, watch="call")
+        runs += rs
+        rs, _ = explore(work, "ab1c", ["A", "B"], {"bound": 1, "stride": 1}, 14, watch="call")
         runs += rs
     for i, rr in enumerate(runs):
         rr["id"] = i
@@ -80,14 +90,15 @@ def run(out, tier, seed):
             run_ = runs[tup[1]]
             where = sorted({s[1].split(":")[0] for s in run_["stops"]})
             out.judge({"clause": tup[2], "who": tup[3], "preempted_in": ",".join(where)[:120]},
-                      {"plan": run_["plan"], "stops": run_["stops"], "threads": run_["threads"], "final": run_["final"]})
+                      {"plan": run_["plan"], "stops": run_["stops"], "threads": run_["threads"], "final": run_["final"], "watch": run_.get("watch", "tooling")})
     out.traces += len(runs)
-    out.extra.update({"schedules": len(runs), "schedule_points_per_thread": info["base_counts"], "model_signatures_current": sigs,
+    out.extra.update({"schedules": len(runs), "schedule_points_per_thread": info["base_counts"], "schedule_points_with_call_path": info_c["base_counts"], "model_signatures_current": sigs,
                       "model_signatures_pinned_mechanism": hist_sigs, "lock_handoffs": sum(r_["lock_blocks"] for r_ in runs),
                       "rule": "TLC: all interleavings of 2 (thorough: 3) threads through the mechanism model at load/store granularity; "
                               "real code: every schedule with <= 2 preemptions of 2 threads (quick: strided) and <= 1 (thorough: 2, "
                               "strided) preemptions of 3 threads, preemptions placed at every attribute/subscript load or store inside "
-                              "the tooling code (sys.monitoring baton scheduler, cooperative stand-in for the tooling lock); per-thread "
+                              "the tooling code - and, for two threads that use the very same selector text, also inside the call path "
+                              "(handler matching, per-selector caches, interaction) - (sys.monitoring baton scheduler, cooperative stand-in for the tooling lock); per-thread "
                               "events, return values and the final state judged by TraceThreads"})
     out.samples.append({"plan": runs[5]["plan"], "stops": runs[5]["stops"], "threads": runs[5]["threads"], "final": runs[5]["final"]})
 
@@ -97,7 +108,7 @@ def replay(out, path):
     work = core.scratch("c08r-")
     jin, jout = os.path.join(work, "r.json"), os.path.join(work, "ro.json")
     tids = sorted(case["threads"])
-    json.dump({"threads": tids, "schedules": [case["plan"]]}, open(jin, "w"))
+    json.dump({"threads": tids, "schedules": [case["plan"]], "watch": case.get("watch", "tooling")}, open(jin, "w"))
     core.run_driver("harness.drivers.thread_driver", [jin, jout])
     runs = json.load(open(jout))
     r = core.run_tlc("TraceThreads", "TraceThreads.cfg", env={"TRACE_FILE": jout}, workers=1, timeout=600)
